@@ -709,6 +709,9 @@ class Runner:
 
     def _reach(self, P, ctx, tag):
         res = self.res
+        if sum(res.reach.values()) >= (30 if self.budget.tier == "quick" else 200):
+            res.reach["unchecked"] = res.reach.get("unchecked", 0) + 1
+            return
         r, s, dt = _solve(P.constraints(2), self.budget.reach_timeout, rlimit=3000000)
         res.reach[r if r in res.reach else "unknown"] += 1
         if r == "sat" and res.validated + len(res.validation_mismatch) < 12:
